@@ -92,12 +92,12 @@ def rule_close(ctx):
         for f in fs:
             if f[0] == 'cond' and thr in canon(f[1]):
                 dec = src
-    if dec is None or len(okb) != 1:
+    if dec is None or not okb:
         raise Unrecognised('close', 'decision block or Ok(Some) return not found')
     rde = mir.strip_sites(g.call_expr(rd))
     ok_edge = [dst for (src, dst), fs in g.edge_facts().items() if not g.edge_infeasible(src, dst)
                for f in fs if f[0] == 'is' and f[2] == ('Ok',) and mir.strip_sites(mir.peel(f[1], calls=False)) == rde]
-    allp = all(okb[0] not in g.reach_from(t, avoid=[dec]) for t in ok_edge) and bool(ok_edge)
+    allp = all(not (set(okb) & set(g.reach_from(t, avoid=[dec]))) for t in ok_edge) and bool(ok_edge)
     ctx.check('close', 'decision-on-every-success-path', allp, (g, dec), 'Ok(Some(block)) unreachable from the read-Ok edge without the close decision')
     # on the true edge close is always called before returning
     tedge = [dst for (src, dst), fs in g.edge_facts().items() if src == dec for f in fs if f[0] == 'cond' and f[2] is True]
